@@ -6,13 +6,13 @@ CRATE = "c09"
 COQ_DIR = "C09"
 COQ_DEPS = []
 PROFILES = ["debug", "release"]
-CORR_IMPORT = "From RlibV Require Import C09.Model C09.Corr.\nOpen Scope Z_scope."
+CORR_IMPORT = "From Coq Require Import Uint63.\nFrom RlibV Require Import C09.Model C09.Corr.\nOpen Scope Z_scope."
 CASE_TYPE = "case"
 AUDIT_IMPORT = ("From Coq Require Import ZArith List Bool.\nImport ListNotations.\n"
                 "From RlibV Require Import C09.Model C09.Properties.\nOpen Scope Z_scope.")
 EXPLAIN = "explain"
 AXIOM_ALLOW = []
-SHARD = 1100
+SHARD = 600
 SEARCH_MAX = 6000
 THEOREMS = []
 
@@ -104,6 +104,17 @@ def z(n):
     return "(%d)" % n if n < 0 else "%d" % n
 
 
+def words(b):
+    """a leading 1 followed by up to seven bytes per 63-bit word"""
+    out = []
+    for i in range(0, len(b), 7):
+        v = 1
+        for x in b[i:i + 7]:
+            v = v * 256 + x
+        out.append(str(v))
+    return "Lit [%s]%%uint63" % ";".join(out)
+
+
 def segs(b):
     """run-length encode long runs: list of Coq seg terms"""
     out, lit, i, n = [], [], 0, len(b)
@@ -113,32 +124,40 @@ def segs(b):
             j += 1
         if j - i >= 24:
             if lit:
-                out.append("Lit [%s]" % ";".join(map(str, lit)))
+                out.append(words(lit))
                 lit = []
             out.append("Run %d %d%%N" % (b[i], j - i))
         else:
             lit += list(b[i:j])
         i = j
     if lit:
-        out.append("Lit [%s]" % ";".join(map(str, lit)))
+        out.append(words(lit))
     return "[" + "; ".join(out) + "]"
+
+
+def zv(n):
+    """integer operand as limbs in base 10^18 (small ones stay ordinary numerals)"""
+    if -1000 < n < 1000:
+        return z(n)
+    m, limbs = abs(n), []
+    while m:
+        limbs.append(str(m % 10 ** 18))
+        m //= 10 ** 18
+    return "(zv %s [%s]%%uint63)" % ("true" if n < 0 else "false", ";".join(reversed(limbs)))
 
 
 def val_term(v):
     k = v[0]
     if k == "i":
-        return "VInt %s %s" % (COQ_TY[v[1]], z(v[2]))
+        return "VInt %s %s" % (COQ_TY[v[1]], zv(v[2]))
     if k in ("s", "r"):
-        b = v[1].encode("utf-8")
-        if len(b) < 24:
-            return "VStr [%s]" % ";".join(map(str, b))
-        return "str %s" % segs(b)
+        return "str %s" % segs(v[1].encode("utf-8"))
     if k == "fill":
         return "str [Run %d %d%%N]" % (v[1], v[2])
     if k in ("v", "t"):
         return "%s [%s]" % ("VVec" if k == "v" else "VTup", "; ".join(val_term(x) for x in v[1]))
     if k == "nv":
-        return "VVec [%s]" % "; ".join("VInt %s %s" % (COQ_TY[v[1]], z(x)) for x in v[2])
+        return "VVec [%s]" % "; ".join("VInt %s %s" % (COQ_TY[v[1]], zv(x)) for x in v[2])
     raise ValueError(v)
 
 
@@ -402,12 +421,12 @@ def generate(rng, tier):
     cases.append({"kind": "non-ascii", "sink": [2, 100, 9], "rt": 0,
                   "ops": [["w", ["s", "héllo 世界"]], ["c", 233], ["c", 0x4e16], ["c", 255], ["c", 256]]})
     # 2. random scripts
-    n_rand = 900 if quick else 12000
+    n_rand = 600 if quick else 12000
     for i in range(n_rand):
         r = rng.fork("s%d" % i)
         cases.append({"kind": "script", "sink": rand_sink(r), "rt": 0, "ops": rand_script(r, r.range(1, 10))})
     # 3. integer-only scripts, read back through Reader
-    n_int = 500 if quick else 8000
+    n_int = 350 if quick else 8000
     for i in range(n_int):
         r = rng.fork("i%d" % i)
         cases.append({"kind": "ints-readback", "sink": rand_sink(r), "rt": 1, "ops": rand_script(r, r.range(1, 8), True)})
